@@ -478,3 +478,55 @@ def pmap(fn, items, nproc=None):
 def run_harness_single(exe, cases, args=(), env=None, timeout=3600, tag="run1"):
     """Like run_harness but one harness process (for use inside pmap workers)."""
     return run_harness(exe, cases, args=args, workers=1, env=env, timeout=timeout, tag=tag)
+
+
+VL_INC = ["/usr/share/verilator/include", "/usr/share/verilator/include/vltstd"]
+
+
+def build_vl(prefix, sources, args=()):
+    """Verilate sources (relative to REPO) into BUILD/<tag>vl-<prefix>-<key>/ and build <prefix>__ALL.a.
+    Returns the model directory (headers + archive)."""
+    paths = [os.path.join(REPO, s) for s in sources]
+    files = {}
+    for p in paths:
+        if not os.path.isfile(p):
+            raise HarnessError("missing verilog source " + p)
+        files[p] = open(p, "rb").read()
+    key = content_key(files, (prefix, list(args), "v2"))
+    outdir = os.path.join(BUILD, "%svl-%s-%s" % (TAG, prefix, key))
+    lib = os.path.join(outdir, prefix + "__ALL.a")
+    if os.path.isfile(lib):
+        return outdir
+    with _Lock(os.path.join(BUILD, ".lock-%svl-%s" % (TAG, prefix))):
+        if os.path.isfile(lib):
+            return outdir
+        _prune("%svl-%s-" % (TAG, prefix), keep=outdir)
+        tmp = outdir + ".tmp%d" % os.getpid()
+        shutil.rmtree(tmp, ignore_errors=True)
+        os.makedirs(tmp)
+        _run(["verilator", "--cc", "--prefix", prefix, "--top-module", "hex", "-Wno-fatal", "-Wno-lint", "-O2",
+              "--Mdir", tmp] + list(args) + paths, what="verilator " + prefix)
+        _run(["make", "-C", tmp, "-f", prefix + ".mk", "-j", "4", "OPT_FAST=-O2", "OPT_SLOW=-O1"], what="make " + prefix)
+        os.rename(tmp, outdir)
+        # the archive records absolute paths nowhere; headers are used from outdir
+    return outdir
+
+
+def build_rtl_harness(name, src, models, flags=(), extra_srcs=()):
+    """models: list of model dirs (from build_vl).  Links verilated runtime."""
+    libs = []
+    incd = list(VL_INC)
+    for m in models:
+        incd.append(m)
+        libs += [a for a in sorted(os.listdir(m)) if a.endswith("__ALL.a")]
+    libpaths = []
+    for m in models:
+        for a in sorted(os.listdir(m)):
+            if a.endswith("__ALL.a"):
+                libpaths.append(os.path.join(m, a))
+    modelkey = "-".join(os.path.basename(m) for m in models)
+    srcs = [src] + list(extra_srcs) + ["/usr/share/verilator/include/verilated.cpp",
+                                       "/usr/share/verilator/include/verilated_threads.cpp"]
+    return build_cxx(name, srcs, flavour="plain",
+                     flags=list(flags) + ["-DVL_MODELKEY=\"%s\"" % modelkey[:200], "-faligned-new", "-Wno-attributes"],
+                     libs=libpaths + ["-lpthread"], incdirs=incd)
